@@ -129,22 +129,28 @@ def step (line : String) : String :=
         (G.init (deliver Gen.copyBufSize ds) dv dw)) sched
       s!"ret={showOut s.ret} tclosed={showBool s.targetClosed} sclosed={showBool s.streamClosed} up[{showG s.up}] down[{showG s.down}]"
     | _, _, _, _, _, _, _, _ => "bad-op"
-  | ["dial", fo, msg] =>
-    -- Outbound.TCP failed with text `msg`; any padding / chunking gives the same decision.
-    -- Without fast open TCP() reports it, with fast open the first Read does.
-    match parseBool fo, parseSpec msg with
-    | some fo, some msg =>
-      let cs := [(serverRespond .fixed (some msg) []).1]
-      let relay := showBool (serverRespond .fixed (some msg) []).2
-      match clientTCP fo cs with
-      | .dialError m => s!"dialerr {digest m} relay={relay} at=tcp"
-      | .closedError => "closed at=tcp"
-      | .conn =>
-        match clientFirstRead cs with
-        | .dialError m => s!"dialerr {digest m} relay={relay} at=read"
-        | .payload _ => "payload at=read"
-        | .error p => s!"error proto={showBool p} at=read"
-    | _, _ => "bad-op"
+  | ["dial", fo, hook, k, msg] =>
+    -- Outbound.TCP failed with text `msg`; hook: 0 = none configured, 1 = configured and
+    -- declining, 2 = intercepting; k Reads time out before the response arrives (fast open).
+    -- Any padding / chunking gives the same decision.
+    match parseBool fo, hook.toNat?, k.toNat?, parseSpec msg with
+    | some fo, some hook, some k, some msg =>
+      let h := if hook = 0 then Hook.absent else if hook = 1 then Hook.declines else Hook.intercepts
+      let r := serverResponses .fixed h (some msg) [] []
+      let cs := r.1
+      let relay := showBool r.2
+      match clientTCP fo cs, connAfterTCP fo cs with
+      | .dialError m, _ => s!"dialerr {digest m} relay={relay} at=tcp"
+      | .closedError, _ => "closed at=tcp"
+      | .conn, some c =>
+        match (appReads c (List.replicate k RdEv.timeout ++ [RdEv.go])).getLast? with
+        | some (.dialError m) => s!"dialerr {digest m} relay={relay} at=read"
+        | some (.data _) => "data at=read"
+        | some .eof => "eof at=read"
+        | some (.error p) => s!"error proto={showBool p} at=read"
+        | _ => "bad-op"
+      | .conn, none => "bad-op"
+    | _, _, _, _ => "bad-op"
   | ["dialok", payload] =>
     match parseSpec payload with
     | some payload =>
